@@ -305,3 +305,53 @@ func sortedKeys[V any](m map[string]V) []string {
 	sort.Strings(ks)
 	return ks
 }
+
+// tableLiteral returns the composite literal a variable is initialised with:
+// a package-level `var x = T{...}` / `x = T{...}` in init, or a local defined once.
+func (c *Ctx) tableLiteral(obj types.Object) *ast.CompositeLit {
+	v, ok := obj.(*types.Var)
+	if !ok || v.IsField() {
+		return nil
+	}
+	var found *ast.CompositeLit
+	n := 0
+	for _, p := range []*packages.Package{c.Bcl, c.Cmd} {
+		if p == nil {
+			continue
+		}
+		for _, f := range p.Syntax {
+			if f.Pos() > v.Pos() || v.Pos() > f.End() {
+				if v.Pkg() != p.Types {
+					continue
+				}
+			}
+			ast.Inspect(f, func(nd ast.Node) bool {
+				switch nd := nd.(type) {
+				case *ast.ValueSpec:
+					for i, name := range nd.Names {
+						if p.TypesInfo.Defs[name] == obj && i < len(nd.Values) {
+							n++
+							if cl, ok := nd.Values[i].(*ast.CompositeLit); ok {
+								found = cl
+							}
+						}
+					}
+				case *ast.AssignStmt:
+					for i, l := range nd.Lhs {
+						if id, ok := l.(*ast.Ident); ok && i < len(nd.Rhs) && (p.TypesInfo.Uses[id] == obj || p.TypesInfo.Defs[id] == obj) {
+							n++
+							if cl, ok := nd.Rhs[i].(*ast.CompositeLit); ok {
+								found = cl
+							}
+						}
+					}
+				}
+				return true
+			})
+		}
+	}
+	if n != 1 {
+		return nil
+	}
+	return found
+}
